@@ -1,6 +1,7 @@
 package props
 
 import (
+	"go/constant"
 	"go/token"
 	"go/types"
 	"sort"
@@ -248,8 +249,43 @@ func checkCauseBound(c *report.Ctx) {
 			if len(e.Vals) != 1 {
 				continue
 			}
-			for _, jc := range facts.JoinCases(e.Vals[0], e.Ret.Block()) {
+			// (`return !(all four empty)`: the cases of the operand, with the outcome inverted)
+			rv, inverted := e.Vals[0], false
+			if u, isU := rv.(*ssa.UnOp); isU && u.Op == token.NOT {
+				rv, inverted = u.X, true
+			}
+			for _, jc := range facts.JoinCases(rv, e.Ret.Block()) {
 				ncase++
+				if inverted {
+					if b, isC := an.ConstBool(jc.Val); isC {
+						jc.Val = ssa.NewConst(constant.MakeBool(!b), jc.Val.Type())
+					} else {
+						// the operand's last test stands for "that field is empty" when true: the result is its negation
+						neg := an.Fact{Cond: jc.Val, Val: false}
+						if x, _, nz := an.LenSign(neg); x != nil && nz {
+							ok2 := fieldOf(x) != ""
+							for _, fl := range four {
+								if fl != fieldOf(x) {
+									has := false
+									for _, ft := range jc.Facts {
+										if y, z, _ := an.LenSign(ft); y != nil && z && fieldOf(y) == fl {
+											has = true
+										}
+									}
+									ok2 = ok2 && has
+								}
+							}
+							if !ok2 {
+								okFour = false
+								why = append(why, sprintf("!%s under %s", an.Path(jc.Val), factsString(jc.Facts)))
+							}
+							continue
+						}
+						okFour = false
+						why = append(why, sprintf("!%s", an.Path(jc.Val)))
+						continue
+					}
+				}
 				empty, nonEmpty := map[string]bool{}, map[string]bool{}
 				for _, ft := range jc.Facts {
 					if x, z, nz := an.LenSign(ft); x != nil {
